@@ -164,8 +164,11 @@ func BoundGuards(fn *ssa.Function) []*Guard {
 	for _, b := range fn.Blocks {
 		for _, in := range b.Instrs {
 			bo, ok := in.(*ssa.BinOp)
-			if !ok || (bo.Op != token.GTR && bo.Op != token.GEQ) {
+			if !ok || (bo.Op != token.GTR && bo.Op != token.GEQ && bo.Op != token.EQL) {
 				continue
+			}
+			if _, isParam := bo.X.(*ssa.Parameter); bo.Op == token.EQL && !isParam {
+				continue // `depth == MAX` is a bound only for a counter parameter stepped by one
 			}
 			if _, isK := bo.Y.(*ssa.Const); !isK {
 				continue
